@@ -6,7 +6,8 @@ import json, os, subprocess, sys, time
 VERIF = os.path.dirname(os.path.dirname(os.path.abspath(__file__)))
 EXTRA = {'C12-b': ['C18'], 'C03-a': ['C10'], 'C03-b': ['C18'], 'C06-a': ['C18'], 'C08-a': ['C18'], 'C08-b': ['C05'],
          'C05-a': ['C08'], 'C17-b': ['C18'], 'C14-b': ['C07'], 'C19-a': ['C10'], 'C07-b': ['C12'], 'C20-b': ['C01'], 'C04x-a': ['C18', 'C06'], 'C04x-b': ['C16'], 'C01x-a': ['C19'], 'C07x-b': ['C12'], 'C08x-b': ['C11', 'C05'],
-         'C05x-a': ['C20'], 'C12x-b': ['C04']}
+         'C05x-a': ['C20'], 'C12x-b': ['C04'], 'C18x-a': ['C06'], 'C18x-b': ['C19', 'C10'], 'C19x-b': ['C08'], 'C03x-b': ['C14'], 'C14x-a': ['C03'],
+         'C15x-b': ['C04'], 'C20x-a': ['C01'], 'C13x-b': ['C06']}
 
 def main():
     wt = [a for a in sys.argv[1:] if a.startswith('--worktree=')]
